@@ -34,7 +34,9 @@ if [ $SHUTTLE_OK -eq 1 ]; then
   "$ROOT/sim/target/release/c09shuttle" "$MODE"; r=$?
   if [ $r -eq 1 ]; then rc=1; elif [ $r -ne 0 ]; then exit $r; fi
 fi
-"$ROOT/tools/c09_miri.py" "$MODE"; r=$?
-if [ $r -eq 1 ]; then rc=1; elif [ $r -ne 0 ]; then exit $r; fi
+if [ -z "${VERIF_SKIP_MIRI:-}" ]; then  # (bulk runs of tools/benign_all.sh skip the slow Miri leg; registered commands never set this)
+  "$ROOT/tools/c09_miri.py" "$MODE"; r=$?
+  if [ $r -eq 1 ]; then rc=1; elif [ $r -ne 0 ]; then exit $r; fi
+fi
 "$ROOT/tools/merge_c09.py" || exit 2
 exit $rc
